@@ -57,12 +57,30 @@ def run_case(ctx, classes, scen, cause=None, prefix=0):
     transitions = ctx.extra.setdefault("_transitions", set())
     pairs = ctx.extra.setdefault("_pairs", set())
     state_before = {}
+    extra = []
 
     def hook(world, i, step, top):
         st = state_of(world)
         prev = state_before.get("s", "start")
         transitions.add("%s -> %s (%s)" % (prev, st, step["m"] if step["m"] in ebb3mon.NOT_REQUESTS else "request"))
         state_before["s"] = st
+        # "Only connecting and disconnecting remain possible": they must still work on a blocked object
+        if top is not None and "raised" not in top and step["m"] == "disconnect":
+            ctx.count("monitor:disconnect() calls checked")
+            closes = [e for e in world.log.events[top["start"]:top["end"]] if e["kind"] == "close"]
+            if world.obj.__dict__.get("port") is not None or (not top["port_none"] and not closes):
+                extra.append({"prop": "C04", "step": i, "kind": "disconnect() did not close and drop the port",
+                              "method": "disconnect", "closed": len(closes)})
+        if top is not None and step["m"] == "connect" and top["port_none"] and top["err_at_entry"] is not None \
+                and not step.get("faults") and not step.get("open_fault") and not step.get("reply") \
+                and step.get("ports") is None and not world.board.rebooted and not world.board.bootloader:
+            ctx.count("monitor:connect() on a latched, unconnected object checked")
+            probes = [e for e in world.log.events[top["start"]:top["end"]] if e["kind"] == "write" and e["data"] == b"v\r"]
+            supported = world.board.product.startswith("EBB") and \
+                tuple(int(x) for x in world.board.version.split(".")) >= (3, 0, 2)
+            if "raised" in top or not probes or (supported and world.obj.__dict__.get("port") is None):
+                extra.append({"prop": "C04", "step": i, "kind": "connect() no longer possible on a latched object",
+                              "method": "connect", "probes": len(probes), "raised": repr(top.get("raised"))})
         if top is not None and step["m"] in ebb3mon.REQUESTS and (top["port_none"] or top["err_at_entry"] is not None):
             blocked_state = ("unconnected" if top["port_none"] else "latched")
             pairs.add(blocked_state + "|" + step["m"])
@@ -71,6 +89,7 @@ def run_case(ctx, classes, scen, cause=None, prefix=0):
             ctx.count("monitor:blocked depth-0 calls checked")
 
     findings, world, tops = ebb3mon.run_scenario(scen, hook=hook)
+    findings = findings + extra
     ctx.count("events:total", len(world.log.events))
     ctx.count("events:err assignments observed", sum(1 for e in world.log.events if e["kind"] == "err_assign"))
     ctx.count("events:writes observed", sum(1 for e in world.log.events if e["kind"] == "write"))
@@ -232,6 +251,8 @@ def run(ctx):
     ctx.need("random history", 200)
     ctx.need("special state", 100)
     ctx.need("special state + failing reconnect", 100)
+    ctx.need("monitor:disconnect() calls checked", 300)
+    ctx.need("monitor:connect() on a latched, unconnected object checked", 50)
     if ctx.nshards == 1:
         ctx.need("systematic latch cause", 2000)
         for name in FOLLOWERS:
